@@ -4,6 +4,7 @@ import (
 	"bytes"
 	"encoding/json"
 	"fmt"
+	"math"
 	"math/big"
 	"math/rand/v2"
 	"reflect"
@@ -163,6 +164,15 @@ func floatOf(m map[string]any) float64 {
 	ds := digitsToString(m["d"])
 	neg := m["neg"].(bool)
 	if ds == "" {
+		switch int(m["n"].(float64)) { // the codes of the non-finite values
+		case 1:
+			if neg {
+				return math.Inf(-1)
+			}
+			return math.Inf(1)
+		case 2:
+			return math.NaN()
+		}
 		if neg {
 			return negZero()
 		}
@@ -350,6 +360,12 @@ func (t *mtype) render(v reflect.Value) any {
 		return map[string]any{"s": stringToCps(v.String())}
 	case "float":
 		f := v.Float()
+		if math.IsNaN(f) {
+			return map[string]any{"neg": false, "d": []any{}, "n": float64(2)}
+		}
+		if math.IsInf(f, 0) {
+			return map[string]any{"neg": f < 0, "d": []any{}, "n": float64(1)}
+		}
 		if f == 0 {
 			return map[string]any{"neg": strconv.FormatFloat(f, 'g', -1, 64) == "-0", "d": []any{}, "n": float64(0)}
 		}
